@@ -169,7 +169,7 @@ Proof.
 Qed.
 
 Lemma memo_begin stk i fr s :
-  Inv stk i s -> ~ In i stk -> (forall k, In k stk -> i < k) -> i < length p ->
+  InvBut p i stk i s -> queue_ok s i -> ~ In i stk -> (forall k, In k stk -> i < k) -> i < length p ->
   (memob i = true -> st (getn s i) <> Clean) ->
   (effb i = true -> edirty (getn s i) = false) ->
   (fr = true \/ since (getn s i) <> []) ->
@@ -180,7 +180,7 @@ Lemma memo_begin stk i fr s :
   (forall k, In k stk -> rlog (getn s' k) = rlog (getn s k) /\ srcs (getn s' k) = srcs (getn s k)) /\
   qview_eq (getn s i) (getn s' i).
 Proof.
-  intros I Hni Hgt Hil Hnc Hnd Hcause. cbv zeta.
+  intros I Hqi Hni Hgt Hil Hnc Hnd Hcause. cbv zeta.
   assert (W : WF s) by apply I.
   assert (Hi : i < nlen s) by (rewrite (wf_len p s W); auto).
   set (s1 := clear_sources i s).
@@ -236,15 +236,16 @@ Proof.
       apply (Rest_ext p s s' k (Hoth k Hki)).
       * intros x v _; apply Hcur.
       * intros x v _ _ Hc. rewrite Hst; auto.
-      * apply I. intros Hin; apply Hk; right; auto.
-    + apply (queue_transfer p s s'); auto. { rewrite Br, Cr. reflexivity. } apply I.
+      * apply (ib_rest _ _ _ _ _ I k); auto. intros Hin; apply Hk; right; auto.
+    + apply (queue_transfer p s s'); auto. { rewrite Br, Cr. reflexivity. }
+      intros e. destruct (Nat.eq_dec e i) as [->|He]; auto. apply (ib_queue _ _ _ _ _ I e He).
     + intros k [<-|Hk].
       * split; [intros x v Hx; rewrite Hrli in Hx; destruct Hx|].
         split; [intros x v Hx; rewrite Hrli in Hx; destruct Hx|].
         split; [intros x Hx; rewrite Hsri in Hx; destruct Hx|].
         split; [auto|]. split; [auto|]. split; [intros Hm; rewrite Hst; auto|].
         intros He. destruct (Hq i) as (->&_). auto.
-      * apply (Frame_ext p i s s' k (Hrlk k (Hnk k Hk)) (Hsrk k (Hnk k Hk))); [| | | |apply I; auto].
+      * apply (Frame_ext p i s s' k (Hrlk k (Hnk k Hk)) (Hsrk k (Hnk k Hk))); [| | | |apply (ib_frame _ _ _ _ _ I k Hk)].
         -- intros _. rewrite Hst; auto.
         -- intros _. destruct (Hq k) as (->&_). auto.
         -- intros x v _; apply Hcur.
